@@ -102,9 +102,13 @@ def rules(P, R, prefix="C02"):
                 head = ctx.var_term(ps[0]["id"], ps[0]["name"])
             # ---- all operations on the queue
             qops = [n for n in cf.nodes() if n["k"] == "mcall" and ctx.term(n["recv"]) == Q]
+            from ..common import sync_fns
+            gp_fn, _ga = sync_fns(prog, env)
+            GP = gp_fn.path if gp_fn is not None else SYNC + "::get_parent_block"
+            GPN = (gp_fn.name if gp_fn is not None else "get_parent_block") + "("
             walk = None       # the loop that fetches ancestors
             for n in cf.nodes():
-                if n["k"] in ("while", "loop") and any(x["k"] == "mcall" and SYNC + "::get_parent_block" in callee_paths(x) for x in ir.walk(n["body"], into_closures=False)):
+                if n["k"] in ("while", "loop") and any(x["k"] == "mcall" and GP in callee_paths(x) for x in ir.walk(n["body"], into_closures=False)):
                     walk = n
             top = cf.body.get("stmts", []) + ([cf.body["expr"]] if "expr" in cf.body else [])
 
@@ -128,7 +132,7 @@ def rules(P, R, prefix="C02"):
                     val = n["args"][-1]
                     vt = ctx.term(val)
                     if walk is not None and any(x is n for x in ir.walk(walk)):
-                        isanc = "get_parent_block(" in vt
+                        isanc = GPN in vt
                         body.append(("push", end, "anc" if isanc else vt))
                         if not isanc:
                             undec.append("%s pushes `%s` inside the ancestor walk" % (n["sp"], vt))
@@ -152,7 +156,7 @@ def rules(P, R, prefix="C02"):
             # ---- R2a: the walk goes parent by parent starting at the head
             if R.judge(walk is not None, prefix + ".R2", key(cf, "ancestor walk found" + tag), cf.sp, "", "no loop calling get_parent_block in %s: "
                        "uncommitted ancestors are not delivered (anchor-missing)" % cf.path, reason="anchor-missing"):
-                gp = [x for x in ir.walk(walk["body"], into_closures=False) if x["k"] == "mcall" and SYNC + "::get_parent_block" in callee_paths(x)]
+                gp = [x for x in ir.walk(walk["body"], into_closures=False) if x["k"] == "mcall" and GP in callee_paths(x)]
                 ok = len(gp) == 1 and deref_var(gp[0]["args"][0]) is not None
                 cur = deref_var(gp[0]["args"][0]) if ok else None
                 why = ""
